@@ -3,6 +3,8 @@
 #![allow(deprecated)]
 use crate::util::*;
 use ssdeep::internal_comparison::{BlockHashPositionArray, BlockHashPositionArrayData, BlockHashPositionArrayImpl};
+#[cfg(feature = "unchecked")]
+use ssdeep::internal_comparison::BlockHashPositionArrayImplUnchecked;
 use ssdeep::{DualFuzzyHash, FuzzyHash, FuzzyHashCompareTarget, LongDualFuzzyHash, LongFuzzyHash, LongRawFuzzyHash, RawFuzzyHash};
 use std::fmt::Write as _;
 use std::panic::{catch_unwind, AssertUnwindSafe};
@@ -165,6 +167,8 @@ pub fn ev_ed(sh: &mut Shards, a: &[u8], b: &[u8]) {
     let mut rs: Vec<(String, String)> = vec![];
     rs.push(("pa".into(), call_u32(|| pa_from(a).edit_distance(b))));
     rs.push(("pa_rev".into(), call_u32(|| pa_from(b).edit_distance(a))));
+    #[cfg(feature = "unchecked")]
+    rs.push(("unchecked".into(), call_u32(|| unsafe { pa_from(a).edit_distance_unchecked(b) })));
     // a position array that held something else before
     rs.push(("pa_reused".into(), call_u32(|| {
         let mut pa = pa_from(b);
@@ -190,6 +194,8 @@ pub fn ev_sub(sh: &mut Shards, a: &[u8], b: &[u8]) {
     let mut rs: Vec<(String, String)> = vec![];
     rs.push(("pa".into(), call_bool(|| pa_from(a).has_common_substring(b))));
     rs.push(("pa_rev".into(), call_bool(|| pa_from(b).has_common_substring(a))));
+    #[cfg(feature = "unchecked")]
+    rs.push(("unchecked".into(), call_bool(|| unsafe { pa_from(a).has_common_substring_unchecked(b) })));
     if is_norm(a) && is_norm(b) {
         rs.push(("t1".into(), call_bool(|| {
             let h = LongRawFuzzyHash::new_from_internals_near_raw(0, a, &[]).normalize();
@@ -221,6 +227,12 @@ pub fn ev_ss(sh: &mut Shards, a: &[u8], b: &[u8], n: u8) {
     let mut raw: Vec<(String, String)> = vec![];
     rs.push(("pa".into(), call_u32(|| pa_from(a).score_strings(b, n))));
     raw.push(("pa".into(), call_u32(|| pa_from(a).score_strings_raw(b))));
+    #[cfg(feature = "unchecked")]
+    {
+        // contract: the array is valid and normalised (a is, by construction), lengths <= 64, n <= 31
+        rs.push(("unchecked".into(), call_u32(|| unsafe { pa_from(a).score_strings_unchecked(b, n) })));
+        raw.push(("unchecked".into(), call_u32(|| unsafe { pa_from(a).score_strings_raw_unchecked(b) })));
+    }
     rs.push(("t1".into(), call_u32(|| {
         let h = LongRawFuzzyHash::new_from_internals_near_raw(0, a, &[]).normalize();
         FuzzyHashCompareTarget::from(&h).block_hash_1().score_strings(b, n)
@@ -271,16 +283,21 @@ pub fn ev_cmp(sh: &mut Shards, reuse: &mut FuzzyHashCompareTarget, x: &H, y: &H)
     let ys = y.short_raw();
     let xt = xl.to_string();
     let yt = yl.to_string();
-    rs.push(("str".into(), match catch_unwind(|| ssdeep::compare(&xt, &yt)) {
-        Ok(Ok(v)) => v.to_string(),
-        Ok(Err(_)) => "\"parse-error\"".into(),
-        Err(_) => "\"panic\"".into(),
-    }));
-    rev.push(("str".into(), match catch_unwind(|| ssdeep::compare(&yt, &xt)) {
-        Ok(Ok(v)) => v.to_string(),
-        Ok(Err(_)) => "\"parse-error\"".into(),
-        Err(_) => "\"panic\"".into(),
-    }));
+    #[cfg(feature = "easy-functions")]
+    {
+        rs.push(("str".into(), match catch_unwind(|| ssdeep::compare(&xt, &yt)) {
+            Ok(Ok(v)) => v.to_string(),
+            Ok(Err(_)) => "\"parse-error\"".into(),
+            Err(_) => "\"panic\"".into(),
+        }));
+        rev.push(("str".into(), match catch_unwind(|| ssdeep::compare(&yt, &xt)) {
+            Ok(Ok(v)) => v.to_string(),
+            Ok(Err(_)) => "\"parse-error\"".into(),
+            Err(_) => "\"panic\"".into(),
+        }));
+    }
+    #[cfg(not(feature = "easy-functions"))]
+    let _ = (&xt, &yt);
     let xn: LongFuzzyHash = xl.normalize();
     let yn: LongFuzzyHash = yl.normalize();
     rs.push(("long".into(), call_u32(|| xn.compare(&yn))));
@@ -332,6 +349,34 @@ pub fn ev_cmp(sh: &mut Shards, reuse: &mut FuzzyHashCompareTarget, x: &H, y: &H)
     }
     if !equiv {
         rs.push(("unequal".into(), call_u32(|| t.compare_unequal(&yn))));
+    }
+    #[cfg(feature = "unchecked")]
+    {
+        // the unchecked entry points, exactly where the documented contracts hold
+        match rel(x.k, y.k) {
+            0 => {
+                rs.push(("u_near_eq".into(), call_u32(|| unsafe { t.compare_near_eq_unchecked(&yn) })));
+                cand.push(("u_near_eq".into(), call_bool(|| unsafe { t.is_comparison_candidate_near_eq_unchecked(&yn) })));
+                if !equiv {
+                    rs.push(("u_unequal_near_eq".into(), call_u32(|| unsafe { t.compare_unequal_near_eq_unchecked(&yn) })));
+                }
+            }
+            -1 => {
+                rs.push(("u_unequal_near_lt".into(), call_u32(|| unsafe { t.compare_unequal_near_lt_unchecked(&yn) })));
+                cand.push(("u_near_lt".into(), call_bool(|| unsafe { t.is_comparison_candidate_near_lt_unchecked(&yn) })));
+            }
+            1 => {
+                rs.push(("u_unequal_near_gt".into(), call_u32(|| unsafe { t.compare_unequal_near_gt_unchecked(&yn) })));
+                cand.push(("u_near_gt".into(), call_bool(|| unsafe { t.is_comparison_candidate_near_gt_unchecked(&yn) })));
+            }
+            _ => {}
+        }
+        if !equiv {
+            rs.push(("u_unequal".into(), call_u32(|| unsafe { t.compare_unequal_unchecked(&yn) })));
+        }
+        if xn != yn {
+            rs.push(("u_long_unequal".into(), call_u32(|| unsafe { xn.compare_unequal_unchecked(&yn) })));
+        }
     }
     if xn != yn {
         rs.push(("long_unequal".into(), call_u32(|| xn.compare_unequal(&yn))));
